@@ -6,6 +6,7 @@ CONSTANT One = 1
 CONSTANT Deltas <- Empty
 CONSTANT Factors <- Empty
 CONSTANT Divisors <- Empty
+CONSTANT Halves <- Empty
 CONSTANT MaxLen = 3
 INVARIANTS TypeOK ExactlyOnce NewValue
 PROPERTY ChangeNotifies
